@@ -15,33 +15,33 @@
 
 using namespace QXmpp::Private;
 
+// XEP-0115 sorts with the i;octet collation (RFC 4790): byte order of the UTF-8 form
+static bool octetLessThan(const QString &s1, const QString &s2)
+{
+    return s1.toUtf8() < s2.toUtf8();
+}
+
 static bool identityLessThan(const QXmppDiscoveryIq::Identity &i1, const QXmppDiscoveryIq::Identity &i2)
 {
-    if (i1.category() < i2.category()) {
+    if (octetLessThan(i1.category(), i2.category())) {
         return true;
-    } else if (i1.category() > i2.category()) {
+    } else if (octetLessThan(i2.category(), i1.category())) {
         return false;
     }
 
-    if (i1.type() < i2.type()) {
+    if (octetLessThan(i1.type(), i2.type())) {
         return true;
-    } else if (i1.type() > i2.type()) {
+    } else if (octetLessThan(i2.type(), i1.type())) {
         return false;
     }
 
-    if (i1.language() < i2.language()) {
+    if (octetLessThan(i1.language(), i2.language())) {
         return true;
-    } else if (i1.language() > i2.language()) {
+    } else if (octetLessThan(i2.language(), i1.language())) {
         return false;
     }
 
-    if (i1.name() < i2.name()) {
-        return true;
-    } else if (i1.name() > i2.name()) {
-        return false;
-    }
-
-    return false;
+    return octetLessThan(i1.name(), i2.name());
 }
 
 class QXmppDiscoveryIdentityPrivate : public QSharedData
@@ -387,7 +387,7 @@ QByteArray QXmppDiscoveryIq::verificationString() const
     QList<QXmppDiscoveryIq::Identity> sortedIdentities = d->identities;
     std::sort(sortedIdentities.begin(), sortedIdentities.end(), identityLessThan);
     QStringList sortedFeatures = d->features;
-    std::sort(sortedFeatures.begin(), sortedFeatures.end());
+    std::sort(sortedFeatures.begin(), sortedFeatures.end(), octetLessThan);
     sortedFeatures.removeDuplicates();
     for (const auto &identity : sortedIdentities) {
         S += identity.category() + u'/' + identity.type() + u'/' + identity.language() + u'/' + identity.name() + u'<';
@@ -408,13 +408,13 @@ QByteArray QXmppDiscoveryIq::verificationString() const
             S += field.value().toString() + u"<";
 
             QStringList keys = fieldMap.keys();
-            std::sort(keys.begin(), keys.end());
+            std::sort(keys.begin(), keys.end(), octetLessThan);
             for (const auto &key : keys) {
                 const QXmppDataForm::Field field = fieldMap.value(key);
                 S += key + u'<';
                 if (field.value().canConvert<QStringList>()) {
                     QStringList list = field.value().toStringList();
-                    list.sort();
+                    std::sort(list.begin(), list.end(), octetLessThan);
                     S += list.join(u'<');
                 } else {
                     S += field.value().toString();
